@@ -54,6 +54,7 @@ func (e *entry) isActive() bool {
 func (e *entry) isClosing() bool {
 	e.mx.Lock()
 	defer e.mx.Unlock()
+	verifGateS("isclosing", e)
 	return e.state == entryStateClosed || e.state == entryStateClosing
 }
 
@@ -72,26 +73,34 @@ func (e *entry) cancelLoad() {
 }
 
 func (e *entry) waitLoad(ctx context.Context, id string) (value Object, err error) {
+	verifGate("gate:waitload", id)
 	select {
 	case <-ctx.Done():
+		verifGateE("waitload.ctx", e)
 		log.DebugCtx(ctx, "ctx done while waiting on object load", zap.String("id", id))
 		return nil, ctx.Err()
 	case <-e.load:
+		verifGateE("waitload.done", e)
 		return e.value, e.loadErr
 	}
 }
 
 func (e *entry) waitClose(ctx context.Context, id string) (res bool, err error) {
+	verifGate("gate:waitclose.lock", id)
 	e.mx.Lock()
+	verifGateS("waitclose", e)
 	switch e.state {
 	case entryStateClosing:
 		waitCh := e.close
 		e.mx.Unlock()
+		verifGate("gate:waitclose.wait", id)
 		select {
 		case <-ctx.Done():
+			verifGateE("waitclose.ctx", e)
 			log.DebugCtx(ctx, "ctx done while waiting on object close", zap.String("id", id))
 			return false, ctx.Err()
 		case <-waitCh:
+			verifGateE("waitclose.woken", e)
 			return true, nil
 		}
 	case entryStateClosed:
@@ -107,6 +116,7 @@ func (e *entry) waitClose(ctx context.Context, id string) (res bool, err error) 
 // closer is done with it, bounded by ctx: that closer may be inside a TryClose
 // that waits on an unresponsive peer.
 func (e *entry) setClosing(ctx context.Context, wait bool) (prevState, curState entryState, err error) {
+	verifGate("gate:setclosing.lock", e.id)
 	e.mx.Lock()
 	prevState = e.state
 	curState = e.state
@@ -117,13 +127,16 @@ func (e *entry) setClosing(ctx context.Context, wait bool) (prevState, curState 
 	// would let two removers close the same channel twice (GO-7332).
 	for e.state == entryStateClosing {
 		waitCh := e.close
+		verifGateS("setclosing.busy", e)
 		e.mx.Unlock()
 		if !wait {
 			return
 		}
+		verifGate("gate:setclosing.wait", e.id)
 		select {
 		case <-waitCh:
 		case <-ctx.Done():
+			verifGateE("setclosing.ctx", e)
 			e.mx.Lock()
 			curState = e.state
 			e.mx.Unlock()
@@ -136,6 +149,7 @@ func (e *entry) setClosing(ctx context.Context, wait bool) (prevState, curState 
 		e.close = make(chan struct{})
 	}
 	curState = e.state
+	verifGateS("setclosing.set", e)
 	e.mx.Unlock()
 	return
 }
@@ -143,6 +157,7 @@ func (e *entry) setClosing(ctx context.Context, wait bool) (prevState, curState 
 func (e *entry) setActive(chClose bool) {
 	e.mx.Lock()
 	defer e.mx.Unlock()
+	verifGateS("setactive", e)
 	if chClose {
 		close(e.close)
 	}
@@ -152,6 +167,7 @@ func (e *entry) setActive(chClose bool) {
 func (e *entry) setClosed() {
 	e.mx.Lock()
 	defer e.mx.Unlock()
+	verifGateS("setclosed", e)
 	close(e.close)
 	e.state = entryStateClosed
 }
